@@ -6,6 +6,9 @@ UnitsTrace.tla (digit structure of 63-bit output); harness/cmd/units.
 import os, json
 from vlib import common
 
+SPECS = ["UnitsMC", "UnitsTrace"]
+PKGS = ["./cmd/units"]
+
 
 def signature(m):
     return dict(op=m["sig"]["op"], **{"class": m["sig"]["class"]})
